@@ -14,6 +14,7 @@ CONSTANTS NTx = 2
           SubMax = 1
           Depth = 0
           AllowCatch = FALSE
+          RestoreOnError = TRUE
           Runs = 1
           Clock = {0}
           EmitOn = TRUE
